@@ -87,24 +87,40 @@ theorem RootsOk.nil (p : GProg) : RootsOk p [] := by
   simp [alookup] at h
 
 /-- `RootTypeSpec` read in a state whose stored roots are right gives the right root (or nil) -/
-theorem rootIn_sound {p : GProg} {σ : St} (hr : RootsOk p σ.root) {t r : LType}
-    (h : rootIn p σ t = some r) : IsRoot p t r := by
-  cases t with
-  | named m n =>
-    simp only [rootIn] at h
+theorem lazyRoot_sound {p : GProg} {σ : St} (hr : RootsOk p σ.root) :
+    ∀ (f : Nat) (m : Nat) (n : Name) (r : LType), lazyRoot p σ f m n = some r → IsRoot p (.named m n) r := by
+  intro f
+  induction f with
+  | zero => intro m n r h; simp [lazyRoot] at h
+  | succ f ih =>
+    intro m n r h
+    simp only [lazyRoot] at h
     split at h
     · rename_i target hl
       split at h
-      · rename_i r' hlook
-        subst h
-        exact hr m n r hlook
       · cases h
+      · rename_i r' hlook
+        cases h
+        exact hr m n r hlook
+      · split at h
+        · rename_i m' n' hres
+          split at h
+          · exact .step m n target (.named m' n') r hl hres (ih m' n' r h)
+          · cases h
+        · cases h
     · rename_i hne
       cases h
       exact .self _ (by
         intro m' n' target heq
         cases heq
         exact fun hl => hne target hl)
+
+theorem rootIn_sound {p : GProg} {σ : St} (hr : RootsOk p σ.root) {t r : LType}
+    (h : rootIn p σ t = some r) : IsRoot p t r := by
+  cases t with
+  | named m n =>
+    simp only [rootIn] at h
+    exact lazyRoot_sound hr _ m n r h
   | base o b => simp only [rootIn] at h; cases h; exact .self _ (by intro _ _ _ h; cases h)
   | list o e => simp only [rootIn] at h; cases h; exact .self _ (by intro _ _ _ h; cases h)
   | set o e => simp only [rootIn] at h; cases h; exact .self _ (by intro _ _ _ h; cases h)
